@@ -7,8 +7,12 @@
 package basic
 
 import (
+	"fmt"
+	"reflect"
 	"sort"
+	"strings"
 	"time"
+	"unsafe"
 
 	enc "github.com/named-data/ndnd/std/encoding"
 )
@@ -21,12 +25,22 @@ type VerifPitNode struct {
 	Entries []any
 }
 
-// VerifPitEntry describes one pending-Interest record.
+// VerifPitEntry describes one pending-Interest record. The record's private fields are read by
+// NAME through reflection: a field that does not exist (any more) is reported as "<absent>", so a
+// refactoring of the record's private state does not stop the harness from building or running.
 type VerifPitEntry struct {
-	CanBePrefix bool
-	HasDigest   bool
+	CanBePrefix string // "true" | "false" | "<absent>" (field canBePrefix)
+	HasDigest   string // "true" | "false" | "<absent>" (field impSha256 non-empty)
+	HasDeadline bool   // field deadline exists and is a time.Time
 	Deadline    time.Time
+	// Other: every further field of the record, by name, rendered generically (scalars by value,
+	// slices/maps by length, pointers/funcs/interfaces as nil or set, structs pointed to field by
+	// field one level deep). Names the harness knows nothing about show up here.
+	Other string
 }
+
+// VerifAbsent is what a dump shows for a private field that does not exist in this tree.
+const VerifAbsent = "<absent>"
 
 // VerifFibNode is one FIB trie node.
 type VerifFibNode struct {
@@ -105,10 +119,97 @@ func VerifPitChain(node any) []VerifPitNode {
 	return out
 }
 
-// VerifPitEntryInfo decodes an entry identity returned by the dumps.
+// verifField: the (readable) value of the private field name of the struct p points to; ok=false
+// if p is not a pointer to a struct or the struct has no such field.
+func verifField(p any, name string) (reflect.Value, bool) {
+	v := reflect.ValueOf(p)
+	if v.Kind() != reflect.Pointer || v.IsNil() || v.Elem().Kind() != reflect.Struct {
+		return reflect.Value{}, false
+	}
+	f := v.Elem().FieldByName(name)
+	if !f.IsValid() {
+		return reflect.Value{}, false
+	}
+	// the struct is addressable (reached through a pointer): lift the read-only flag of private fields
+	return reflect.NewAt(f.Type(), unsafe.Pointer(f.UnsafeAddr())).Elem(), true
+}
+
+func verifRender(f reflect.Value, deep bool) string {
+	switch f.Kind() {
+	case reflect.Bool, reflect.Int, reflect.Int8, reflect.Int16, reflect.Int32, reflect.Int64,
+		reflect.Uint, reflect.Uint8, reflect.Uint16, reflect.Uint32, reflect.Uint64, reflect.String,
+		reflect.Float32, reflect.Float64:
+		return fmt.Sprint(f.Interface())
+	case reflect.Slice, reflect.Map:
+		if f.IsNil() {
+			return "nil"
+		}
+		return fmt.Sprintf("len%d", f.Len())
+	case reflect.Func, reflect.Chan, reflect.Interface, reflect.UnsafePointer:
+		if f.IsNil() {
+			return "nil"
+		}
+		return "set"
+	case reflect.Pointer:
+		if f.IsNil() {
+			return "nil"
+		}
+		if deep && f.Elem().Kind() == reflect.Struct {
+			return "&" + verifRender(f.Elem(), false)
+		}
+		if f.Elem().Kind() != reflect.Struct && f.Elem().Kind() != reflect.Pointer {
+			return "&" + verifRender(f.Elem(), false)
+		}
+		return "set"
+	case reflect.Struct:
+		if t, ok := f.Interface().(time.Time); ok {
+			return fmt.Sprint(t.UnixNano())
+		}
+		var parts []string
+		for i := 0; i < f.NumField(); i++ {
+			g := f.Field(i)
+			if g.CanAddr() {
+				g = reflect.NewAt(g.Type(), unsafe.Pointer(g.UnsafeAddr())).Elem()
+			} else if !g.CanInterface() {
+				parts = append(parts, f.Type().Field(i).Name+"=?")
+				continue
+			}
+			parts = append(parts, f.Type().Field(i).Name+"="+verifRender(g, false))
+		}
+		return "{" + strings.Join(parts, ",") + "}"
+	}
+	return f.Kind().String()
+}
+
+// VerifPitEntryInfo decodes an entry identity returned by the dumps (see VerifPitEntry).
 func VerifPitEntryInfo(entry any) VerifPitEntry {
-	p := entry.(*pendInt)
-	return VerifPitEntry{CanBePrefix: p.canBePrefix, HasDigest: p.impSha256 != nil, Deadline: p.deadline}
+	out := VerifPitEntry{CanBePrefix: VerifAbsent, HasDigest: VerifAbsent}
+	if f, ok := verifField(entry, "canBePrefix"); ok && f.Kind() == reflect.Bool {
+		out.CanBePrefix = fmt.Sprint(f.Bool())
+	}
+	if f, ok := verifField(entry, "impSha256"); ok && f.Kind() == reflect.Slice {
+		out.HasDigest = fmt.Sprint(f.Len() > 0)
+	}
+	if f, ok := verifField(entry, "deadline"); ok {
+		if t, ok := f.Interface().(time.Time); ok {
+			out.HasDeadline, out.Deadline = true, t
+		}
+	}
+	v := reflect.ValueOf(entry)
+	if v.Kind() == reflect.Pointer && !v.IsNil() && v.Elem().Kind() == reflect.Struct {
+		var parts []string
+		for i := 0; i < v.Elem().NumField(); i++ {
+			name := v.Elem().Type().Field(i).Name
+			switch name {
+			case "canBePrefix", "impSha256", "deadline":
+				continue
+			}
+			f, _ := verifField(entry, name)
+			parts = append(parts, name+"="+verifRender(f, true))
+		}
+		out.Other = strings.Join(parts, ",")
+	}
+	return out
 }
 
 func verifWalkFib(n *NameTrie[fibEntry], path string, out *[]VerifFibNode) {
